@@ -401,8 +401,20 @@ func (ex *Exec) applyContract(st *State, in ssa.Instruction, site string, con *C
 		st.assume(ex.evalClause(env, cl, con))
 	}
 	ex.bindResult(st, res, r)
+	if deadcodeProbe && ex.cur != nil {
+		k := ex.cur.short + "@" + site
+		if probeCount[k] < 2000 {
+			probeCount[k]++
+			o := ex.newObl(st, "vacuity", "after_call_"+site, "false", "code after this call is reachable", ex.cur.con.Props)
+			o.Canary = true
+			o.Probe = true
+		}
+	}
 	return append(out, st)
 }
+
+var deadcodeProbe = false
+var probeCount = map[string]int{}
 
 func lastName(key string) string {
 	if i := strings.LastIndex(key, "."); i >= 0 {
